@@ -76,3 +76,19 @@ def chain_class(cfg, k):
     if k >= 3:
         return 'chain>=3'
     return 'chain=%d' % k
+
+
+def thorough_aux(modname, kinds, nreq=40, max_bits=512, groups=None, quick_kinds=()):
+    """returns an extra_passes(runmod, tier, seed, st, jobs) function running the module's own requests under the given aux kinds"""
+    def extra_passes(runmod, tier, seed, st, jobs):
+        import importlib
+        import aux
+        me = importlib.import_module(modname)
+        cov = {}
+        use = list(kinds) if tier == 'thorough' else list(quick_kinds)
+        cfgs = [c for c in me.configs(tier) if core.Cfg(c).bits <= max_bits]
+        for kind in use:
+            n = nreq if kind.startswith('miri') else nreq * 20
+            cov[kind.replace('-', '_') + '_pass'] = aux.run_pass(runmod, me, kind, tier, seed, st, cfgs, n, jobs, groups=groups, chunk=40 if kind.startswith('miri') else 400)
+        return cov
+    return extra_passes
